@@ -29,11 +29,11 @@ Matched(s) == s.lenRel = "equal" /\ s.kRel \in {"none", "exact", "within"}
 \* array input, or a file with a k column: the number of points and the k values are checked when evaluated
 CheckedAtCalculate(s) == s.origin # "file1"
 
-VARIABLES src, dom, rank, stage, mutated, last
-vars == <<src, dom, rank, stage, mutated, last>>
+VARIABLES src, dom, rank, stage, mutated, regridded, last
+vars == <<src, dom, rank, stage, mutated, regridded, last>>
 
 Init == /\ src \in Sources /\ dom \in DomCfgs /\ rank \in {1, 2}
-        /\ stage = "constructed" /\ mutated = FALSE
+        /\ stage = "constructed" /\ mutated = FALSE /\ regridded = FALSE
         /\ last = [act |-> "Construct"]
 
 \* the caller changes the array it handed to the constructor
@@ -41,7 +41,7 @@ MutateCaller ==
     /\ src.origin \in {"array", "arrayk"} /\ stage \in {"constructed", "calculated"} /\ ~mutated
     /\ mutated' = TRUE
     /\ last' = [act |-> "MutateCaller"]
-    /\ UNCHANGED <<src, dom, rank, stage>>
+    /\ UNCHANGED <<src, dom, rank, stage, regridded>>
 
 \* which stages a call of calculate(k) may end in
 CalcOutcomeAllowed(s, st) ==
@@ -54,7 +54,7 @@ Calculate ==
           /\ CalcOutcomeAllowed(src, st)
           /\ stage' = st
           /\ last' = [act |-> "Calculate", ret |-> IF st = "calculated" THEN "verbatim" ELSE "raises"]
-    /\ UNCHANGED <<src, dom, rank, mutated>>
+    /\ UNCHANGED <<src, dom, rank, mutated, regridded>>
 
 \* System.createPRISM evaluates every omega on the domain's k and exports the table
 Build ==
@@ -63,16 +63,28 @@ Build ==
           /\ IF Matched(src) THEN st = "built" ELSE IF CheckedAtCalculate(src) THEN st = "rejected" ELSE TRUE
           /\ stage' = st
           /\ last' = [act |-> "Build", ret |-> IF st = "built" THEN "verbatim" ELSE "raises"]
-    /\ UNCHANGED <<src, dom, rank, mutated>>
+    /\ UNCHANGED <<src, dom, rank, mutated, regridded>>
 
 \* first evaluation of the cost function
 Evaluate ==
     /\ stage = "built"
     /\ stage' = IF Matched(src) THEN "evaluated" ELSE "rejected"
     /\ last' = [act |-> "Evaluate", ret |-> IF Matched(src) THEN "finite" ELSE "raises"]
-    /\ UNCHANGED <<src, dom, rank, mutated>>
+    /\ UNCHANGED <<src, dom, rank, mutated, regridded>>
 
-Next == MutateCaller \/ Calculate \/ Build \/ Evaluate
+\* the SAME source object later meets another grid (the user changes the Domain's length or spacing, or reuses
+\* the object in another System): every check starts afresh - nothing validated for an earlier grid carries over.
+\* Modelled from a source that matched its first grid exactly, to the relations a Domain can realise.
+Regrids == {s \in Sources : s.lenRel # "one" /\ s.kRel \in {"none", "exact", "within", "beyond", "rescaled"}}
+Regrid(r) ==
+    /\ ~regridded /\ stage # "rejected"
+    /\ src.lenRel = "equal" /\ src.kRel \in {"none", "exact"}
+    /\ r \in Regrids /\ r.origin = src.origin /\ r # src
+    /\ src' = r /\ stage' = "constructed" /\ regridded' = TRUE
+    /\ last' = [act |-> "Regrid", lenRel |-> r.lenRel, kRel |-> r.kRel]
+    /\ UNCHANGED <<dom, rank, mutated>>
+
+Next == MutateCaller \/ Calculate \/ Build \/ Evaluate \/ \E r \in Regrids : Regrid(r)
 
 \* ------------------------------------------------------------------ statements
 \* no correlation function is ever produced from mismatched data
